@@ -582,7 +582,7 @@ func c22M4Config(variant int) []byte {
 	if variant%2 == 1 {
 		out = append(out, c22M4Section(0xb5, 0x89, 0x13)...)
 	}
-	out = append(out, c22M4Section(byte(variant))...)                        // video object
+	out = append(out, c22M4Section(byte(variant))...)                                   // video object
 	out = append(out, c22M4Section(byte(0x20+variant), 0x86, 0xc4, byte(variant+1))...) // video object layer
 	return out
 }
